@@ -40,6 +40,7 @@ def dispatch (line : String) : String :=
     | "addrrt" => C16.addrrtOp args
     | "envelope" => C16.envelopeOp args
     | "envjson" => C16.envjsonOp args
+    | "envhdrs" => C16.envhdrsOp args
     | "mailcmd" => C16.mailcmdOp args
     | "argv" => C16.argvOp args
     | "envcheck" => C16.envcheckOp args
